@@ -875,6 +875,8 @@ class Interp:
                 ctx.side_obligations.append(("loop-step:" + tag + nm, c, list(ctx.pc)))
             ctx.notes.append("loop %s: one symbolic iteration checked against its invariant" % tag)
             raise PathAbort()
+        # exit: $i <= len and not $i < len; stated as an equation so that the solver can eliminate $i
+        ctx.assume(compare("==", i, itv.base.length))
         fr.locals.pop("$i", None)
         fr.locals.pop("$iter", None)
         if node.orelse:
